@@ -28,7 +28,9 @@ LEVEL = "exploration"
 RULE = ("(a) all sequences of <=2 catalogue instructions (one canonical + one all-ones-registers encoding per valid "
         "opcode, fe/ff with every register byte, nop), every catalogue instruction x every combination of 0-2 payloads "
         "(packed 0..3, sparse 0..2, fill-array width{1,2,4,8} x count{0,1,3}) with alignment nops and referencing 31t "
-        "(thorough: all sequences of <=3 over a reduced catalogue x {no, each single} payload); the <=1 x payload streams "
+        "(thorough: all sequences of <=3 over a reduced catalogue x {no, each single} payload); odd-length fill-array "
+        "payloads (width 1 x count 1,3,5) with alignment byte 00/01/ff, as last item or followed by an instruction, behind "
+        "none or one reduced-catalogue instruction; these, the <=1 x payload streams "
         "and all <=2 sequences over the reduced catalogue again as code items of generated DEX files through "
         "EncodedMethod.get_instructions(_idx) (first, second and cached calls), DalvikCode.get_bc, DEX.disassemble; "
         "(b, fault-enumeration half) every 1-unit buffer, every 2-unit buffer over 65536 x 16 units, every single-byte "
@@ -98,7 +100,9 @@ def ref_sweep(buf, off=0):
             cnt = struct.unpack_from("<H", buf, off + 2)[0] if u0 != 0x0300 else struct.unpack_from("<I", buf, off + 4)[0]
             if u0 == 0x0300:
                 w = struct.unpack_from("<H", buf, off + 2)[0]
-                feat = "%s:%s" % (PAYLOAD_NAME[u0], "empty" if cnt * w == 0 else ("odd-bytes" if (cnt * w) % 2 else "even-bytes"))
+                nb = cnt * w
+                feat = "%s:%s" % (PAYLOAD_NAME[u0], "empty" if nb == 0 else "even-bytes" if nb % 2 == 0 else
+                                  "odd:nonzero-pad" if buf[off + 8 + nb] else "odd-bytes")
             else:
                 feat = "%s:%s" % (PAYLOAD_NAME[u0], "empty" if cnt == 0 else "nonempty")
             out.append((off, PAYLOAD_NAME[u0], length, feat))
@@ -489,7 +493,10 @@ def judge_dex(env, codes):
 
 def dex_streams(family, lo, hi):
     """The valid streams of the via-dex families by enumeration index."""
-    if family == "pay":         # every sequence of <= 1 catalogue instruction x every combination of 1-2 payloads
+    if family == "pad":
+        for k in range(lo, hi):
+            yield pad_stream(k)[0]
+    elif family == "pay":       # every sequence of <= 1 catalogue instruction x every combination of 1-2 payloads
         cat = catalogue()
         seqs = [[]] + [[c] for c in cat]
         pcs = payload_combos()
@@ -508,9 +515,44 @@ def dex_streams(family, lo, hi):
                 yield red[a][1] + red[b][1]
 
 
+PAD_COUNTS, PAD_BYTES = (1, 3, 5), (0x00, 0x01, 0xff)
+
+
+def pad_stream(k):
+    """Stream #k of the alignment-byte family: fill-array-data v0 ; [one reduced-catalogue instruction] ; [nop] ;
+    fill-array-data-payload of width 1 and odd count whose alignment byte is 00 / 01 / ff ; [one more instruction]
+    (the byte after an odd number of data bytes is not constrained by the specification; dx/d8 write 00).
+    -> (code, listing)"""
+    red = reduced_catalogue()
+    opt = [None] + red
+    k, si = divmod(k, len(opt))
+    k, pi = divmod(k, len(opt))
+    ci, bi = divmod(k, len(PAD_BYTES))
+    items, off = [[0, "fill-array-data", None]], 6
+    if opt[pi]:
+        items.append([off, opt[pi][0], opt[pi][1]])
+        off += len(opt[pi][1])
+    if off % 4:
+        items.append([off, "nop", b"\x00\x00"])
+        off += 2
+    items[0][2] = D.enc("fill-array-data", 0, off // 2)
+    data = bytes(range(0x81, 0x81 + PAD_COUNTS[ci]))
+    pay = D.fill_array_payload(1, data)[:-1] + bytes((PAD_BYTES[bi],))
+    items.append([off, "fill-array-data-payload", pay])
+    off += len(pay)
+    if opt[si]:
+        items.append([off, opt[si][0], opt[si][1]])
+    return b"".join(it[2] for it in items), [(o, nm, b) for o, nm, b in items]
+
+
+def n_pad_streams():
+    return len(PAD_COUNTS) * len(PAD_BYTES) * (len(reduced_catalogue()) + 1) ** 2
+
+
 def dex_family_sizes():
     return {"pay": (len(catalogue()) + 1) * (len(payload_combos()) - 1),
-            "red2": 1 + len(reduced_catalogue()) + len(reduced_catalogue()) ** 2}
+            "red2": 1 + len(reduced_catalogue()) + len(reduced_catalogue()) ** 2,
+            "pad": n_pad_streams()}
 
 
 # ----------------------------------------------------------------------------------- catalogue and streams
@@ -553,7 +595,16 @@ def catalogue():
     return canon + ones + regs
 
 
+_RED = []
+
+
 def reduced_catalogue():
+    if not _RED:
+        _RED.extend(_reduced_catalogue())
+    return list(_RED)
+
+
+def _reduced_catalogue():
     seen, out = set(), []
     for op in sorted(D.OPC):
         name, fmt, _ = D.OPC[op]
@@ -651,6 +702,9 @@ def space(ctx):
          "arbitrary_1unit": 65536, "arbitrary_2unit": 65536 * len(UNIT2), "unit2_alphabet": ["%04x" % u for u in UNIT2],
          "substitution_alphabet": ["%02x" % b for b in SUBST], "fault_base_streams": len(fault_bases()),
          "budget_events": "%d + %d x bytes" % (BUDGET0, BUDGET1)}
+    d["valid_alignment_byte_streams"] = n_pad_streams()
+    d["alignment_byte_family"] = {"width": 1, "counts": list(PAD_COUNTS), "alignment_bytes": ["%02x" % b for b in PAD_BYTES],
+                                  "before/after": "none or one reduced-catalogue instruction"}
     d["via_dex_methods"] = dex_family_sizes()
     d["via_dex_methods_per_file"] = DEX_BATCH
     if ctx.thorough:
@@ -664,6 +718,7 @@ def shards(ctx):
     s = [("seq2", lo, hi) for lo, hi in _chunks(ncat, 16)]
     npc = len(payload_combos())
     s += [("pay", lo, hi) for lo, hi in _chunks(npc, 12)]
+    s += [("pad", lo, hi) for lo, hi in _chunks(n_pad_streams(), 6400)]
     s += [("u1", lo, lo + 0x4000) for lo in range(0, 0x10000, 0x4000)]
     s += [("u2", lo, lo + 0x400) for lo in range(0, 0x10000, 0x400)]
     s += [("fault", r, NFAULT) for r in range(NFAULT)]
@@ -832,6 +887,14 @@ def _run_shard(ctx, shard):
         if shard[1] == 0:
             code, lst = build_stream([cat[1]], payload_combos()[25])
             acc.sample({"valid_stream_with_payloads": code.hex(), "listing": [(o, nm) for o, nm, _ in lst]})
+    elif kind == "pad":
+        for k in range(shard[1], shard[2]):
+            code, lst = pad_stream(k)
+            _run(acc, env, code, len(code) // 2, "valid_streams", lst)
+            acc.count("valid_pad_streams")
+        if shard[1] == 0:
+            k = (len(reduced_catalogue()) + 1) ** 2 * 2 + 1
+            acc.sample({"valid_stream_nonzero_alignment_byte": pad_stream(k)[0].hex(), "listing": [(o, nm) for o, nm, _ in pad_stream(k)[1]]})
     elif kind == "seq3":
         red = reduced_catalogue()
         a = red[shard[1]]
@@ -886,7 +949,8 @@ def replay(ctx, w):
 
 def finalize(ctx, acc):
     sp = space(ctx)
-    want_valid = sp["valid_seq_le2"] + sp["valid_seq1_x_payloads"] + (sp.get("valid_seq3_reduced_x_payload01", 0))
+    want_valid = (sp["valid_seq_le2"] + sp["valid_seq1_x_payloads"] + sp["valid_alignment_byte_streams"]
+                  + sp.get("valid_seq3_reduced_x_payload01", 0))
     if acc.extra.get("valid_streams", 0) != want_valid:
         acc.harness_error("valid streams explored %d != %d" % (acc.extra.get("valid_streams", 0), want_valid))
     if acc.extra.get("arbitrary_1unit", 0) != 65536 or acc.extra.get("arbitrary_2unit", 0) != 65536 * len(UNIT2):
